@@ -779,7 +779,25 @@ func init() {
 	opq := func(kind string) Value {
 		return IfaceV{T: types.NewPointer(errDynType), V: OpaqueV{Kind: kind}}
 	}
-	reg("StoreService", func(e *Exec, fn *ssa.Function, a []Value) Value { return opq("storeservice") })
+	reg("StoreService", func(e *Exec, fn *ssa.Function, a []Value) Value {
+		return IfaceV{T: types.NewPointer(errDynType), V: OpaqueV{Kind: "storeservice", ID: e.concreteStr(a[1], "store name")}}
+	})
+	// TryTx: run f like baseapp runs a transaction: its writes are kept only if it succeeds
+	reg("TryTx", func(e *Exec, fn *ssa.Function, a []Value) Value {
+		snap := e.store_().snapshot()
+		res := e.callValue(a[2], []Value{a[1]}, nil).(IfaceV)
+		if res.T != nil {
+			e.store_().restore(snap)
+		}
+		return res
+	})
+	// DryRun: run f and always discard its writes
+	reg("DryRun", func(e *Exec, fn *ssa.Function, a []Value) Value {
+		snap := e.store_().snapshot()
+		res := e.callValue(a[2], []Value{a[1]}, nil)
+		e.store_().restore(snap)
+		return res
+	})
 	reg("Ctx", func(e *Exec, fn *ssa.Function, a []Value) Value { return &CtxV{F: map[string]Value{}} })
 	reg("Codec", func(e *Exec, fn *ssa.Function, a []Value) Value { return opq("codec") })
 	reg("AddressCodec", func(e *Exec, fn *ssa.Function, a []Value) Value { return opq("addrcodec") })
